@@ -432,6 +432,35 @@ func (ctx *RenderContext) variableExists(name string) bool {
 	return false
 }
 
+// promotedThroughNil reports whether the method of that name reaches the
+// struct through an embedded pointer that is nil
+func promotedThroughNil(v reflect.Value, name string) bool {
+	t := v.Type()
+	for i := 0; i < t.NumField(); i++ {
+		f := t.Field(i)
+		if !f.Anonymous {
+			continue
+		}
+		fv := v.Field(i)
+		switch {
+		case f.Type.Kind() == reflect.Ptr && f.Type.Elem().Kind() == reflect.Struct:
+			if _, ok := f.Type.MethodByName(name); ok {
+				if fv.IsNil() {
+					return true
+				}
+				if promotedThroughNil(fv.Elem(), name) {
+					return true
+				}
+			}
+		case f.Type.Kind() == reflect.Struct:
+			if _, ok := reflect.PtrTo(f.Type).MethodByName(name); ok && promotedThroughNil(fv, name) {
+				return true
+			}
+		}
+	}
+	return false
+}
+
 // GetMacros returns the macros map
 func (ctx *RenderContext) GetMacros() map[string]Node {
 	return ctx.macros
@@ -1507,6 +1536,12 @@ func (ctx *RenderContext) getAttribute(obj interface{}, attr string) (interface{
 		}
 
 		if method.IsValid() {
+			// A method promoted from an embedded pointer that is nil cannot be
+			// called (reflect's wrapper dereferences the pointer): there is no
+			// such member, as for a field behind that pointer
+			if promotedThroughNil(objValue, attr) {
+				return nil, nil
+			}
 			results := method.Call(nil)
 			if len(results) > 0 {
 				return results[0].Interface(), nil
